@@ -1030,12 +1030,12 @@ class Lean:
         for t in self.drv.ask("list").split(","):
             name, n = t.rsplit(":", 1)
             self.entries[name] = int(n)
-        self.used = set()
 
     def verdict(self, name, bits):
         key = (name, bits)
         if key not in self.cache:
             self.cache[key] = self.drv.ask(f"check {name} {bits or '-'}")
+            count("lean:verdicts-asked")
         return self.cache[key]
 
     def negatives(self):
@@ -1050,7 +1050,7 @@ class Lean:
         """'ok' or the first non-ok verdict over all code-branch bits."""
         if call.lean is None:
             return "ok"
-        self.used.add(call.lean)
+        count("entry:" + call.lean)
         if call.lean not in self.entries:
             return f"unknown (no transcription named {call.lean})"
         lay = {}
@@ -1087,6 +1087,12 @@ class Lean:
 
 
 _LEAN = [None]
+_CTX = [None]  # the Ctx of this run: whatever is recorded through it travels back from forked workers
+
+
+def count(key):
+    if _CTX[0] is not None:
+        _CTX[0].count(key)
 
 
 def lean():
@@ -1738,15 +1744,27 @@ def nontrivial(case):
     return False
 
 
-def enumerating(combos, gen):
-    """gen_case for `ctx.explore`: walks the exhaustive combination list cyclically; the Random passed
-    in chooses the callee state (prefix ops, seeds, mixed layouts)."""
-    counter = [0]
+def enumerating(ctx, name, combos, gen, n_cases):
+    """gen_case for `ctx.explore`: case number idx gets combination idx mod len(combos), so the exhaustive
+    combination list is walked once per `len(combos)` cases whatever process generates the case; the Random
+    passed in chooses the callee state (prefix ops, seeds, mixed layouts). `explore` hands the generator only
+    `ctx.rng(name, idx)`: idx is recovered from that generator's state."""
+    import random as _random
+    table = {}
+
+    def first(r):
+        probe = _random.Random()
+        probe.setstate(r.getstate())
+        return probe.random()
 
     def g(rng):
-        c = combos[counter[0] % len(combos)]
-        counter[0] += 1
-        return gen(rng, c)
+        if not table:
+            for i in range(n_cases):
+                table[first(ctx.rng(name, i))] = i
+        idx = table.get(first(rng))
+        if idx is None:  # not one of explore's generators (ad-hoc use): fall back to a draw
+            idx = rng.randrange(len(combos))
+        return gen(rng, combos[idx % len(combos)])
 
     return g
 
@@ -1788,6 +1806,8 @@ def tie_tables(ctx):
 
 
 def run(ctx):
+    import os
+    _CTX[0] = ctx
     try:
         tie_tables(ctx)
         # warm-up (numba compilation of numpy_groupies / CMA-ES kernels) outside the strata's time budgets
@@ -1796,26 +1816,33 @@ def run(ctx):
         stopped = False
         for name, combos, gen, states, budget in strata(ctx):
             n = len(combos) * (states[0] if ctx.quick else states[1])
+            n_cases = ctx.n(n, n)
             ctx.extra.setdefault("combinations", {})[name] = len(combos)
             t0 = time.time()
-            ctx.explore(name, enumerating(combos, gen), run_case, ctx.n(n, n), nontrivial=nontrivial, max_fail=1,
-                        time_budget=budget[0] if ctx.quick else budget[1])
+            ctx.explore(name, enumerating(ctx, name, combos, gen, n_cases), run_case, n_cases,
+                        nontrivial=nontrivial, max_fail=1, time_budget=budget[0] if ctx.quick else budget[1])
             ctx.extra.setdefault("stratum_wall_s", {})[name] = round(time.time() - t0, 2)
-            stopped = stopped or f"{name}:time-budget-stop" in ctx.dist
+            stopped = stopped or f"{name}:time-budget-stop" in ctx.dist or n_cases < len(combos)
         L = lean()
-        ctx.extra["lean_verdicts_asked"] = len(L.cache)
-        missing = sorted(set(L.entries) - L.used - PUBLIC_ONLY_INTERNAL)
-        if missing and not ctx.failures:
-            if stopped:
-                ctx.notes.append(f"transcriptions not exercised in this (time-limited) run: {missing}")
-            else:
+        used = {k[len("entry:"):] for k in ctx.dist if k.startswith("entry:")}
+        missing = sorted(set(L.entries) - used - PUBLIC_ONLY_INTERNAL)
+        # every transcription must be reached by some monitored call. Judged only on a complete enumeration:
+        # quick tier (single process), full scale, no stratum cut short by its time budget or by a failure.
+        complete = ctx.quick and not stopped and not ctx.failures and \
+            float(os.environ.get("VERIF_SCALE", "1")) >= 1
+        if missing:
+            if complete:
                 ctx.fail(Failure("corr", f"transcribed entry points never exercised at runtime: {missing}"),
                          {"ops": [], "stratum": "tables"})
+            else:
+                ctx.notes.append(f"transcriptions not exercised in this (shortened / parallel) run: {missing}")
     finally:
         lean_close()
+        _CTX[0] = None
 
 
 def replay(ctx, case):
+    _CTX[0] = ctx
     try:
         if not case.get("ops"):
             tie_tables(ctx)
